@@ -309,7 +309,7 @@ func TestVerifC15(t *testing.T) {
 		}
 		// single-bit flips somewhere in the compressed stream: most give an undecodable stream, some decode to other bytes with a
 		// checksum that no longer matches - the loader must notice either
-		for k := 0; k < r.Pick(8, 40); k++ {
+		for k := 0; k < r.Pick(8, 16); k++ {
 			k := k
 			damages = append(damages, damage{fmt.Sprintf("bit-flip-%d", k), func(o []byte, p string) {
 				c := append([]byte{}, o...)
